@@ -203,6 +203,10 @@ def jobs(tier):
     pairs = [(8, 3), (9, 4)] if tier == 'quick' else [(8, 3), (9, 4), (10, 5), (11, 4)]
     for n1, n2 in pairs:
         js.append({'name': 'pair:%d,%d' % (n1, n2), 'harness': (H, 'h_pair'), 'params': {'n1': n1, 'n2': n2}, 'split': 16})
+    # whole files whose lines use different terminators (LF first line, CR LF later): the CR is never part of the line the grammar sees
+    for sc in (['text', 'empty'], ['text', 'run'], ['write', 'cont bare', 'text'], ['text', 'write', 'cont bare'], ['temp', 'cont bare', 'cont prefix']):
+        js.append({'name': 'file with mixed line terminators: ' + '/'.join(sc), 'harness': ('props.c01', 'h_conform'),
+                   'params': {'nlines': len(sc), 'menu_name': 'small', 'fixed': sc, 'mix_le': True, 'inc_len': 0, 'out_len': 1}})
     from . import project
     js += project.jobs('C15', tier)
     return js
@@ -220,6 +224,9 @@ BOUNDS = {k: v + _project.bounds_note('C15', k) for k, v in BOUNDS.items()}
 def replay(native, v):
     if v['data'].get('op') == 'kani':
         return kani_replay(v)
+    if v['data'].get('op') == 'pp':
+        from . import c01
+        return c01.replay(native, v)
     """re-run a counterexample on the natively compiled code and on the concrete spec -> (confirmed, detail)"""
     d = v['data']
     model = d['model']
